@@ -338,8 +338,19 @@ def gen_local(seed, tier):
             else:
                 prog.append({"op": "fire", "calc": c, "shot": trace_shot, "range": [gen.pick(rng, [40.0, 80.0, 150.0]), "Yard"],
                              "step": [1000.0, "Yard"], "extra": True, "time_step": 1e-9, "trace": True})
-    prog.append({"op": "reset_globals"})
     import random as _random
+    r3 = _random.Random(repr(rng.getstate()[1][:6]) + "far")            # side stream: other draws of a seed stay as they were
+    if r3.random() < 0.05:
+        # a fine maximum step and a far aim point: ONE pass of the zero search (iteration cap 1) takes 205-290 thousand
+        # integration steps.  The zero search records no rows, so the step bound is checked by counting: a pass that reaches
+        # distance D in steps of at most the configured maximum takes at least D / maximum steps
+        mx = gen.pick(r3, [0.006, 0.008, 0.01])
+        dist = round(r3.uniform(205_000, 290_000) * mx / 2.0, 1)
+        w["calcs"].append({"config": {"max_calc_step_size_feet": mx, "cMaxIterations": 1, "cMinimumVelocity": 0.0}})
+        cid = len(w["calcs"]) - 1
+        prog.append({"op": "new_calc", "calc": cid})
+        prog.append({"op": "elev", "calc": cid, "shot": trace_shot, "dist": [dist, "Foot"], "far_fine": True})
+    prog.append({"op": "reset_globals"})
     r2 = _random.Random(repr(rng.getstate()[1][:6]) + "clone")          # side stream: other draws of a seed stay as they were
     for op in prog:
         # a COPY of the calculator (copy / deepcopy / pickle round trip, as when work is handed to another process) carries
@@ -428,6 +439,25 @@ def check_local(spec, hist):
                                                               f"trace: {slow!r} fps)",
                         # "near rest": slower than the speed gravity imparts over one maximum step from rest
                         near_rest=bool(slow < math.sqrt(2 * abs(want_g.get(op["calc"], 32.17405)) * mx)))
+    # the step bound by counting (covers the zero search, which records no rows): in still air a computation that carried
+    # the projectile to distance D in steps of at most the maximum took at least D / maximum integration steps
+    for i, op in enumerate(prog):
+        if i >= len(res) or op["op"] not in ("fire", "zero", "elev") or op.get("calc") not in calc_step:
+            continue
+        r = res[i]
+        sh = spec["world"]["shots"][op["shot"]]
+        if sh.get("winds") is not None or r.get("steps") is None:
+            continue
+        reached = r.get("kind") == "ok" or (r.get("kind") == "exc" and isinstance(r.get("digest"), dict)
+                                            and r["digest"].get("exc") == "ZeroFindingError" and r["digest"].get("iterations", 0) >= 1)
+        dspec = op.get("range") or op.get("dist")
+        if not reached or isinstance(dspec, dict):
+            continue
+        need = int(gen.to_feet(dspec) / calc_step[op["calc"]]) - 2
+        if r["steps"] < need:
+            bad("step.fewer_steps_than_distance_over_maximum", i,
+                f"{op['op']} to {gen.to_feet(dspec)!r} ft took {r['steps']} integration steps; with a maximum step of "
+                f"{calc_step[op['calc']]!r} ft at least {need} are needed", far_fine=bool(op.get("far_fine")))
     # limits, iteration cap and accuracy honoured (the full truthfulness analysis of aborts is C04's, of caps C02's; here
     # only: the calculator's OWN settings - not another calculator's, not the defaults - are the ones that act)
     full = {}
